@@ -240,4 +240,169 @@ theorem en_sig (s : St) (e : Bool) (ho : s.outcome = some e) (h0 : s.signals = 0
     ∃ s', step s (.sig e) = some s' :=
   ⟨_, by simp only [step]; rw [if_pos ⟨ho, h0⟩]⟩
 
+/-! ### termination measure of the protocol model -/
+
+/-- chunks left in the queues + place of every participant + the pending completion -/
+def muP (s : St) : Nat :=
+  sumTo s.w (fun q => (s.qs q).2 - (s.qs q).1) + sumTo s.w (fun k => BulkC.pcw s.w (s.pc k)) +
+    (1 - s.signals)
+
+/-- `chunk k j` only confirms the chunk index: the one event that leaves the state unchanged -/
+def isChunk : Ev → Bool
+  | .chunk _ _ => true
+  | _ => false
+
+theorem muP_pc (s s' : St) (k : Nat) (x : Pc) (hk : k < s.w) (hw : s'.w = s.w) (hqs : s'.qs = s.qs)
+    (hsig : s'.signals = s.signals) (hpc : s'.pc = upd s.pc k x)
+    (hlt : BulkC.pcw s.w x < BulkC.pcw s.w (s.pc k)) : muP s' < muP s := by
+  unfold muP
+  rw [hw, hqs, hsig, hpc]
+  have := sumTo_upd s.w (BulkC.pcw s.w) s.pc k x hk
+  omega
+
+/-- **Every accepted event of the protocol model other than `chunk` decreases `muP`.** -/
+theorem muP_step (s s' : St) (e : Ev) (he : isChunk e = false) (h : step s e = some s') :
+    muP s' < muP s := by
+  cases e with
+  | spawn k =>
+    obtain ⟨hk, hpc, hp⟩ := eff_spawn _ _ _ h
+    subst hp
+    exact muP_pc s _ k .spawned hk rfl rfl rfl rfl (by rw [hpc]; simp only [BulkC.pcw]; omega)
+  | skip k =>
+    obtain ⟨hk, hpc, hp⟩ := eff_skip _ _ _ h
+    subst hp
+    exact muP_pc s _ k (.fin false) hk rfl rfl rfl rfl (by rw [hpc]; simp only [BulkC.pcw]; omega)
+  | task k =>
+    obtain ⟨hk, hpc, hp⟩ := eff_task _ _ _ h
+    subst hp
+    exact muP_pc s _ k (.run 0) hk rfl rfl rfl rfl
+      (by rcases hpc with hpc | hpc <;> rw [hpc] <;> simp only [BulkC.pcw] <;> omega)
+  | pop k q r =>
+    cases r with
+    | none =>
+      obtain ⟨hk, off, hoff, hp⟩ := eff_popNone _ _ _ _ h
+      subst hp
+      exact muP_pc s _ k _ hk rfl rfl rfl rfl (by have := BulkC.pcw_afterEmpty s.w off _ hoff; omega)
+    | some j =>
+      obtain ⟨hk, off, hoff, hqq, hne, hj, hp⟩ := eff_popSome _ _ _ _ _ h
+      have hqw : q < s.w := by rw [hqq]; exact Nat.mod_lt _ (by omega)
+      have hlt := (qEmpty_false_iff _).1 hne
+      have hp0 := BulkC.pcw_of_offOf s.w off j _ hoff
+      have B := sumTo_upd s.w (BulkC.pcw s.w) s.pc k (.work off j) hk
+      subst hp
+      unfold muP
+      dsimp only
+      by_cases h0 : off = 0
+      · simp only [h0, if_true] at B ⊢
+        have A := sumTo_upd s.w (fun r : Nat × Nat => r.2 - r.1) s.qs q ((s.qs q).1 + 1, (s.qs q).2) hqw
+        dsimp only at A
+        rw [h0] at hp0
+        omega
+      · simp only [h0, if_false] at B ⊢
+        have A := sumTo_upd s.w (fun r : Nat × Nat => r.2 - r.1) s.qs q ((s.qs q).1, (s.qs q).2 - 1) hqw
+        dsimp only at A
+        omega
+  | chunk k j => simp [isChunk] at he
+  | exc k =>
+    obtain ⟨hk, _, ⟨off, j, hpc⟩, hp⟩ := eff_exc _ _ _ h
+    subst hp
+    exact muP_pc s _ k (.fin true) hk rfl rfl rfl rfl (by rw [hpc]; simp only [BulkC.pcw]; omega)
+  | dec k last =>
+    obtain ⟨hk, _, _, hp⟩ := eff_dec _ _ _ _ h
+    rcases hp with ⟨⟨t, hpc⟩, hp⟩ | ⟨⟨off, j, hpc⟩, _, hp⟩
+    · subst hp
+      exact muP_pc s _ k .decd hk rfl rfl rfl rfl (by rw [hpc]; simp only [BulkC.pcw]; omega)
+    · subst hp
+      exact muP_pc s _ k .decd hk rfl rfl rfl rfl (by rw [hpc]; simp only [BulkC.pcw]; omega)
+  | sig err =>
+    obtain ⟨_, h0, hp⟩ := eff_sig _ _ _ h
+    subst hp
+    unfold muP
+    dsimp only
+    rw [h0]
+    omega
+
+theorem chunk_same (s s' : St) (e : Ev) (he : isChunk e = true) (h : step s e = some s') : s' = s := by
+  cases e with
+  | chunk k j => exact (eff_chunk _ _ _ _ h).1
+  | _ => simp [isChunk] at he
+
+/-- non-`chunk` events of a log -/
+def workP (log : List Ev) : Nat := (log.filter (fun e => !isChunk e)).length
+
+theorem workP_le_muP (s s' : St) (log : List Ev) (h : runLog step s log = some s') :
+    workP log + muP s' ≤ muP s := by
+  induction log generalizing s with
+  | nil => simp only [runLog_nil, Option.some.injEq] at h; subst h; simp [workP]
+  | cons e es ih =>
+    simp only [runLog] at h
+    cases hs : step s e with
+    | none => simp [hs] at h
+    | some s1 =>
+      simp only [hs] at h
+      have := ih s1 h
+      cases hst : isChunk e with
+      | true =>
+        have := chunk_same s s1 e hst hs
+        subst this
+        have : workP (e :: es) = workP es := by simp [workP, hst]
+        omega
+      | false =>
+        have := muP_step s s1 e hst hs
+        have : workP (e :: es) = workP es + 1 := by simp [workP, hst]
+        omega
+
+theorem size_tele (a : Nat → Nat) (m : Nat) (hm : ∀ k, k < m → a k ≤ a (k + 1)) :
+    sumTo m (fun k => a (k + 1) - a k) = a m - a 0 ∧ a 0 ≤ a m := by
+  induction m with
+  | zero => simp
+  | succ j ih =>
+    obtain ⟨e, hle⟩ := ih (fun k hk => hm k (by omega))
+    have h1 := hm j (by omega)
+    simp only [sumTo_succ]
+    rw [e]
+    omega
+
+theorem muP_init (w L : Nat) (a : Nat → Nat) (hm : ∀ k, k < w → a k ≤ a (k + 1)) :
+    muP (init w L a) = (a w - a 0) + w * (3 * w + 8) + 1 := by
+  obtain ⟨t1, _⟩ := size_tele a w hm
+  have e1 : sumTo w (fun _ => BulkC.pcw w Pc.idle) = w * (3 * w + 8) := by
+    have hp : BulkC.pcw w Pc.idle = 3 * w + 8 := rfl
+    rw [hp]
+    generalize 3 * w + 8 = z
+    have : ∀ m, sumTo m (fun _ => z) = m * z := by
+      intro m; induction m with
+      | zero => simp
+      | succ j ih => rw [sumTo_succ, ih, Nat.succ_mul]
+    exact this w
+  unfold muP
+  show sumTo w (fun k => a (k + 1) - a k) + sumTo w (fun _ => BulkC.pcw w Pc.idle) + (1 - 0) = _
+  rw [t1, e1]
+
+/-- **No stuck state of the protocol model**: while the receiver has not been signalled some
+    event other than the stutter `chunk` is enabled (see `actor` for who moves). -/
+theorem proto_progress (s : St) (hi : Inv s) (hsp : SpInv s) (h0 : s.signals = 0) :
+    ∃ e s', isChunk e = false ∧ step s e = some s' := by
+  cases ho : s.outcome with
+  | some err =>
+    obtain ⟨s', hs'⟩ := en_sig s err ho h0
+    exact ⟨_, s', rfl, hs'⟩
+  | none =>
+    have hrem := (hi.outn ho).1
+    rcases actor s hi hsp ho with ⟨hc, hidle⟩ | ⟨hc, hidle⟩ | ⟨k, hk, hkL, hpc⟩ |
+        ⟨k, off, hk, hoff⟩ | ⟨k, t, hk, hpc⟩
+    · obtain ⟨e, s', he, hs'⟩ := en_spawn_skip s hc hidle
+      rcases he with he | he <;> subst he <;> exact ⟨_, s', rfl, hs'⟩
+    · obtain ⟨s', hs'⟩ := en_taskL s hi hc hidle
+      exact ⟨_, s', rfl, hs'⟩
+    · obtain ⟨s', hs'⟩ := en_task s k hk hkL hpc
+      exact ⟨_, s', rfl, hs'⟩
+    · cases hq : qEmpty (s.qs ((k + off) % s.w)) with
+      | true =>
+        obtain ⟨s', hs'⟩ := en_popNone s k off hk hoff hq
+        exact ⟨_, s', rfl, hs'⟩
+      | false => exact ⟨_, _, rfl, en_popSome s k off hk hoff hq⟩
+    · obtain ⟨s', hs'⟩ := en_dec_fin s k t hk hrem hpc
+      exact ⟨_, s', rfl, hs'⟩
+
 end PikaVerif.Bulk
